@@ -167,7 +167,11 @@ func Corrupt(t *rapid.T, root *ref.SNode, label string) (*ref.SNode, *Corruption
 		}
 		delta := step(frac)
 		v := d.Rat()
-		if c.rule == "min" {
+		exclName := map[string]string{"min": "exclusiveMinimum", "max": "exclusiveMaximum"}[c.rule]
+		if ex, ok := n.BoolRule(exclName); ok && ex && fracOf(r.Tok) <= frac && rapid.Bool().Draw(t, label+"OnBound") {
+			// an exclusive bound is violated by the bound itself
+			c.rule = exclName
+		} else if c.rule == "min" {
 			v.Sub(v, delta)
 		} else {
 			v.Add(v, delta)
